@@ -198,6 +198,7 @@ def _wait(ctx, w):
     for at, code, nid in plan:
         ctx.at(t0 + at, (lambda c=code, n_=nid: w.raw.send(0x80 + n_, bytes([c & 0xFF, c >> 8, 1, 0, 0, 0, 0, 0]))))
     nlog = len(cons.log)
+    ctx.op("wait", filt, timeout, [(a // 1000, c, n_ == w.nid) for a, c, n_ in plan])
     res, exc = call(cons.wait, filt, timeout)
     took = ctx.now - t0
     lat = 2 * MS
@@ -327,6 +328,7 @@ def scenario(ctx):
                     w.cbs.append((len(w.log_all), seen))
                     ctx.probe("callback")
             elif op == "reset":
+                ctx.op("consumer.reset()")
                 w.r.emcy.reset()
                 w.log = []
                 w.active = []
